@@ -85,11 +85,35 @@ def record_hdf(log: Log, path):
                 log.whole(f"hdf{self.name}[{item}]")
         return orig(self, item)
 
+    # whole-dataset conversions (np.asarray(ds), np.atleast_1d(ds), ds.read_direct(...)) bypass __getitem__
+    orig_array = h5py.Dataset.__array__
+    orig_direct = h5py.Dataset.read_direct
+
+    def mine_(self):
+        try:
+            return self.file.filename == spath
+        except Exception:
+            return False
+
+    def as_array(self, *a, **k):
+        if mine_(self):
+            log.whole(f"hdf{self.name}.__array__")
+        return orig_array(self, *a, **k)
+
+    def read_direct(self, dest, source_sel=None, dest_sel=None):
+        if mine_(self) and not getattr(self, "_verif_inside_array", False):
+            log.whole(f"hdf{self.name}.read_direct")
+        return orig_direct(self, dest, source_sel, dest_sel)
+
     h5py.Dataset.__getitem__ = getitem
+    h5py.Dataset.__array__ = as_array
+    h5py.Dataset.read_direct = read_direct
     try:
         yield
     finally:
         h5py.Dataset.__getitem__ = orig
+        h5py.Dataset.__array__ = orig_array
+        h5py.Dataset.read_direct = orig_direct
 
 
 # ---- FITS ----------------------------------------------------------------------
